@@ -365,8 +365,18 @@ def gen_build_case(rng, ring_with_restraint=False, rw_nonunit=False):
                 d, tol = round(rng.uniform(0.4, 0.5), 3), 0.15
             lines += ['[ distance_restraints ]', f'{a} {b} {d} {tol}']
             decl.append({'kind': 'dist', 'a': a, 'b': b, 'd': d, 'tol': tol, 'mols': [lo, hi]})
+    # -start on a residue that carries a geometric restraint (by molecule name only, or with the molecule index): the walk
+    # begins there, and the start position is a generated residue position like every other
+    start_spec = []
+    geo = [d for d in decl if d['kind'] in ('sphere', 'cylinder', 'rectangle')]
+    if geo and not cyc and rng.random() < 0.6:
+        d = rng.choice(geo)
+        cand = [r for r in range(d['start'], d['stop']) if 2 <= r <= mt['nres'] and mt['resnames'][r - 1] == d['resname']]
+        if cand:
+            r = rng.choice(cand)
+            start_spec = [f"MA-{d['resname']}#{r}" if rng.random() < 0.6 else f"MA#0-{d['resname']}#{r}"]
     return {'moltypes': mts, 'molecules': mols, 'box': box, 'build': '\n'.join(lines) + '\n', 'decl': decl,
-            'cycles': ['MA'] if cyc else [], 'seed': rng.randrange(10 ** 6)}
+            'cycles': ['MA'] if cyc else [], 'seed': rng.randrange(10 ** 6), 'start': start_spec}
 
 
 def geom_ok(d, p):
@@ -486,7 +496,7 @@ def run_build_case(case, timeout=60):
     with systems.Workdir() as wd:
         res = systems.run_gen_coords(wd, top, seed=case['seed'], hooks=hooks, files={'opts.bld': case['build']},
                                      build=['opts.bld'], box=box, cycles=case['cycles'], cycle_tol=0.0, maxiter=200,
-                                     timeout=timeout)
+                                     start=list(case.get('start') or []), timeout=timeout)
     rec['ok'] = res['ok']
     rec['exc'] = None if res['ok'] else f"{res['exc_type']}: {res['exception']}"
     return rec
@@ -545,7 +555,7 @@ def run(ctx):
     bcases[len(bcases) - 2:len(bcases) - 2] = [gen_build_case(ctx.rng, rw_nonunit=True) for _ in range(ctx.n(2, 12))]
     bcases += [gen_build_case(ctx.rng) for _ in range(ctx.n(12, 120))]
     if ctx.broken:
-        bcases = bcases[:5]
+        bcases = bcases[:5] + [c for c in bcases[5:] if c.get('start')][:8]
     timeouts = 0
     for case in bcases:
         if timeouts >= 2:
@@ -557,6 +567,8 @@ def run(ctx):
             ctx.note(f"gen_coords with build file did not finish: {rec['exc']} -- build file: {case['build']!r} cycles {case['cycles']} "
                      f"shape {case['moltypes'][0]['shape']} nres {case['moltypes'][0]['nres']} molecules {case['molecules']}")
         ctx.feature('e2e_ok' if rec['ok'] else 'e2e_failed')
+        if case.get('start'):
+            ctx.feature('e2e_start_on_restrained_residue_' + ('by_name' if '#0-' not in case['start'][0] else 'with_index'))
         ctx.feature('e2e_restraint_checks', rec['selected'])
         for b in rec['bad'][:2]:
             ctx.violation('spec', f"C07 fails on the implementation: {b}", {'case': case, 'failure': b})
